@@ -1,7 +1,7 @@
 (* C11 -- property theorems: natural order, sort, skip and limit. *)
 From Coq Require Import ZArith List String Bool Permutation.
 From Verif Require Import Value Coll Cursor.
-From Verif Require Import C11Keys C11Radix C11Cursor.
+From Verif Require Import C11Keys C11Radix C11Cursor C11Full.
 Import ListNotations.
 Open Scope Z_scope.
 
@@ -76,3 +76,39 @@ Theorem C11_count : forall docs f skip limit n,
   count_run docs f skip limit = Ok (VInt n).
 Proof. exact count_correct. Qed.
 Print Assumptions C11_count.
+
+(* 5. the same program with its intermediate evaluations (cursor[0]) taken into account: an
+   evaluation runs the query under the sort in force at that point and may raise.
+   cursor_run_full is what the per-run correspondence compares with the library;
+   cursor_spec_full decides a program only when every evaluated prefix is decided.
+   c11_peeks_ok: the sort keys in force at every evaluation are inside the model. *)
+Theorem C11_cursor_full : forall docs f sort0 skip0 limit0 ms L,
+  cursor_spec_full docs f sort0 skip0 limit0 ms = Some L ->
+  c11_docs_ok docs = true -> c11_meths_ok ms = true ->
+  c11_spec_ok (final_sort sort0 ms) = true -> c11_peeks_ok sort0 ms = true ->
+  cursor_run_full docs f sort0 skip0 limit0 ms = Ok L.
+Proof. exact cursor_full_correct. Qed.
+Print Assumptions C11_cursor_full.
+
+(* whenever the program with evaluations returns, it returns the specified answer (no premise
+   on the evaluated prefixes) *)
+Theorem C11_cursor_full_partial : forall docs f sort0 skip0 limit0 ms L L',
+  cursor_spec_full docs f sort0 skip0 limit0 ms = Some L ->
+  c11_docs_ok docs = true -> c11_meths_ok ms = true ->
+  c11_spec_ok (final_sort sort0 ms) = true ->
+  cursor_run_full docs f sort0 skip0 limit0 ms = Ok L' -> L' = L.
+Proof. exact cursor_full_partial. Qed.
+Print Assumptions C11_cursor_full_partial.
+
+(* the program with evaluations, when it runs through, is the program without them; without
+   evaluations the two specifications coincide *)
+Theorem C11_full_is_run : forall docs f sort0 skip0 limit0 ms L,
+  cursor_run_full docs f sort0 skip0 limit0 ms = Ok L -> cursor_run docs f sort0 skip0 limit0 ms = Ok L.
+Proof. exact cursor_run_full_ok. Qed.
+Print Assumptions C11_full_is_run.
+
+Theorem C11_spec_full_no_peek : forall docs f sort0 skip0 limit0 ms,
+  existsb (fun m => match m with MPeek => true | _ => false end) ms = false ->
+  cursor_spec_full docs f sort0 skip0 limit0 ms = cursor_spec docs f sort0 skip0 limit0 ms.
+Proof. exact cursor_spec_full_no_peek. Qed.
+Print Assumptions C11_spec_full_no_peek.
